@@ -174,6 +174,20 @@ func (r *Rig) Close() {
 	r.Server.Close()
 }
 
+// Conn returns the backend connection whose handshake named the given path, if any.
+func (r *Rig) Conn(key string) *BackendConn {
+	r.mu.Lock()
+	defer r.mu.Unlock()
+	return r.conns[key]
+}
+
+// ForgetConns drops the record of all backend connections seen so far.
+func (r *Rig) ForgetConns() {
+	r.mu.Lock()
+	defer r.mu.Unlock()
+	r.conns = map[string]*BackendConn{}
+}
+
 // TakeDials returns and clears the recorded dial addresses.
 func (r *Rig) TakeDials() []string {
 	r.mu.Lock()
